@@ -119,12 +119,90 @@ def rules(rep, m):
                   "fact that makes it positive (pre-incremented count, zero-weight early return, explicit count guards, "
                   "empty-merge early return)", floor=7)
     wacc = tuple(m.need("cmb_wtdsummary_" + n_) for n_ in ("variance", "stddev", "skewness", "kurtosis"))
+    from ..vals import any_assert_condition
+    from ..astutil import float_value
+
+    def count_floor(conds):
+        """largest k such that the dominating conditions imply 'some sample count >= k' (per count expression)"""
+        lb = {}
+        for cd in conds:
+            neg = cd.startswith("!")
+            c0 = cd[1:] if neg else cd
+            mm = re.fullmatch(r"\((.+(?:->|\.)count) (>|>=|==|!=|<|<=) (\d+)\)", c0)
+            if not mm:
+                continue
+            e, op, k = mm.group(1), mm.group(2), int(mm.group(3))
+            if neg:
+                op = {">": "<=", ">=": "<", "==": "!=", "!=": "==", "<": ">=", "<=": ">"}[op]
+            v = None
+            if op == ">":
+                v = k + 1
+            elif op == ">=":
+                v = k
+            elif op == "!=" and k == 0:
+                v = 1
+            if v is not None:
+                lb[e] = max(lb.get(e, 0), v)
+        return lb
+
+    def positive(cx, f, node, conds, lb, depth=0):
+        """provably > 0 (weights of counted samples are positive: w >= 0 asserted and w == 0 returns early)"""
+        n_ = cx.resolve(node) if depth < 10 else strip(node, casts=True)
+        k = n_["kind"]
+        v = float_value(n_) if k in ("IntegerLiteral", "FloatingLiteral") else None
+        if v is not None:
+            return v > 0
+        c = cx.canon(n_)
+        if k == "UnaryOperator" and n_.get("opcode") == "++" and re.search(r"(->|\.)count$", cx.canon(kids(n_)[0])):
+            return True
+        if k in ("MemberExpr", "DeclRefExpr"):
+            if re.search(r"(->|\.)count$", c):
+                return lb.get(c, 0) >= 1 or any(v_ >= 1 for e_, v_ in lb.items() if e_.split("->")[-1].split(".")[-1] == "count" and e_ == c)
+            if re.search(r"(->|\.)wsum$", c):
+                # the weight sum of a summary that is known to hold samples
+                owner = re.sub(r"(->|\.)wsum$", "", c)
+                return any(lb.get(e_, 0) >= 1 for e_ in lb if re.sub(r"(->|\.)(ds\.)?count$", "", e_) in (owner, "(struct cmb_datasummary *)" + owner))
+            if k == "DeclRefExpr" and n_["ref"].get("kind") == "ParmVarDecl":
+                return any(cd in ("(%s > 0)" % c, "(%s > 0.0)" % c, "!(%s == 0)" % c, "!(%s == 0.0)" % c, "(%s != 0)" % c,
+                                  "(%s != 0.0)" % c, "!(%s <= 0)" % c, "!(%s <= 0.0)" % c) for cd in conds) and \
+                    (any(any_assert_condition(s_) is not None and cx.canon(any_assert_condition(s_)) in ("(%s >= 0)" % c, "(%s >= 0.0)" % c)
+                         for s_ in kids(f.body)) or any(cd in ("(%s > 0)" % c, "(%s > 0.0)" % c) for cd in conds))
+            return False
+        if k == "BinaryOperator":
+            op = n_["opcode"]
+            a_, b_ = kids(n_)[0], kids(n_)[1]
+            if op == "*":
+                return positive(cx, f, a_, conds, lb, depth + 1) and positive(cx, f, b_, conds, lb, depth + 1)
+            if op == "+":
+                pa, pb = positive(cx, f, a_, conds, lb, depth + 1), positive(cx, f, b_, conds, lb, depth + 1)
+                return (pa and nonneg(cx, f, b_, conds, lb, depth + 1)) or (pb and nonneg(cx, f, a_, conds, lb, depth + 1))
+            if op == "-":
+                kk = float_value(strip(b_, casts=True))
+                ca = cx.canon(a_)
+                if kk is not None and re.search(r"(->|\.)count$", ca):
+                    return lb.get(ca, 0) >= kk + 1
+                return False
+        return False
+
+    def nonneg(cx, f, node, conds, lb, depth=0):
+        n_ = cx.resolve(node) if depth < 10 else strip(node, casts=True)
+        if positive(cx, f, n_, conds, lb, depth + 1):
+            return True
+        v = float_value(n_) if n_["kind"] in ("IntegerLiteral", "FloatingLiteral") else None
+        if v is not None:
+            return v >= 0
+        c = cx.canon(n_)
+        if re.search(r"(->|\.)(count|wsum)$", c):
+            return True                    # counts are unsigned; a weight sum is a sum of asserted non-negative weights
+        if n_["kind"] == "DeclRefExpr" and n_["ref"].get("kind") == "ParmVarDecl":
+            return any(any_assert_condition(s_) is not None and cx.canon(any_assert_condition(s_)) in ("(%s >= 0)" % c, "(%s >= 0.0)" % c)
+                       for s_ in kids(f.body))
+        if n_["kind"] == "BinaryOperator" and n_["opcode"] in ("+", "*"):
+            return nonneg(cx, f, kids(n_)[0], conds, lb, depth + 1) and nonneg(cx, f, kids(n_)[1], conds, lb, depth + 1)
+        return False
+
     for f in (ds_add, ds_merge, ws_add, ws_merge) + tuple(acc.values()) + wacc:
         cx = FuncCtx(m, f)
-        guards = []
-        for x in walk(f.body):
-            if x["kind"] == "IfStmt":
-                guards.append((x, cx.canon(kids(x)[0])))
         for x in walk(f.body):
             if x["kind"] != "BinaryOperator" or x.get("opcode") != "/":
                 continue
@@ -132,44 +210,26 @@ def rules(rep, m):
             if not re.search(r"count|wsum", div):
                 continue
             r3.instance("%s: / %s" % (f.name, div[:80]))
-            ok = False
-            why = ""
-            if re.search(r"\+\+\w+->count|\+\+\w+\.count", div):
-                ok = True                      # pre-incremented count >= 1
-            # enclosing guards on the count
-            need = 0
-            for mm in re.finditer(r"count - (\d+)", div):
-                need = max(need, int(mm.group(1)))
-            for anc in inv.enclosing_chain(f, x):
-                if anc["kind"] == "IfStmt":
-                    c = cx.canon(kids(anc)[0])
-                    inthen = any(y is x for y in walk(kids(anc)[1]))
-                    for mm in re.finditer(r"\(\w+(->|\.)count > (\d+)\)", c):
-                        if "||" not in c and int(mm.group(2)) >= need and inthen and ("wsum" not in div or
-                                                                                 re.search(r"wsum > 0", c)):
-                            ok = True
-            # early returns before: count == 0 / w == 0
-            idx = inv.stmt_index_containing(f, x) or 0
-            early = [cx.canon(kids(s_)[0]) for s_ in kids(f.body)[:idx] if s_["kind"] == "IfStmt" and
-                     any(y["kind"] == "ReturnStmt" for y in walk(kids(s_)[1]))]
-            if "wsum" in div and "count" not in div:
-                # w1 + w2 with w2 = w > 0: needs the zero-weight early return and the w >= 0 assertion; or the
-                # empty-merge early return (count == 0 <=> wsum == 0)
-                from ..vals import assert_condition
-                asserted = [cx.canon(assert_condition(s_)) for s_ in kids(f.body) if assert_condition(s_) is not None]
-                if any(re.fullmatch(r"\(\w+ == 0(\.0)?\)", e) for e in early) and any(re.fullmatch(r"\(\w+ >= 0(\.0)?\)", a) for a in asserted):
-                    ok = True
-                if any(re.fullmatch(r"\(.*count == 0\)", e) for e in early):
-                    ok = True
-            if "count" in div and not ok:
-                if any(re.fullmatch(r"\(.*count == 0\)", e) for e in early) and need == 0:
+            conds = inv.dominating_conditions(cx, f, x)
+            lb = count_floor(conds)
+            # a merged summary that is not empty has a non-empty operand: count(a) + count(b) != 0
+            for cd in conds:
+                mm = re.fullmatch(r"!\(\((.+count) \+ (.+count)\) == 0\)|\(\((.+count) \+ (.+count)\) != 0\)", cd)
+                if mm:
+                    lb["(%s + %s)" % tuple(g_ for g_ in mm.groups() if g_)] = 1
+            ok = positive(cx, f, kids(x)[1], conds, lb)
+            if not ok:
+                # the merged weight sum / count of a non-empty merge (the empty case returned early)
+                merged_nonempty = any(v_ >= 1 for e_, v_ in lb.items() if " + " in e_) or any(
+                    re.fullmatch(r"!\(.*count == 0\)|\(.*count != 0\)|\(.*count > 0\)", cd) for cd in conds)
+                if merged_nonempty and re.search(r"wsum|count", div) and not re.search(r"count - ", div):
                     ok = True
             if ok:
                 r3.ok()
             else:
                 rep.finding(r3, f.name, "division:unguarded", "%s divides by '%s', which can be zero (empty summary / zero "
-                            "weight sum): the result is NaN or infinite and poisons every later update" % (f.name, div[:100]),
-                            where=m.rel(loc(x)))
+                            "weight sum): the result is NaN or infinite and poisons every later update (known here: %s)" %
+                            (f.name, div[:100], conds[:4]), where=m.rel(loc(x)))
                 r3.fail()
 
     # R-C17-5 unsigned differences -------------------------------------------------
@@ -188,20 +248,14 @@ def rules(rep, m):
             if "count" not in a_ + b_:
                 continue
             r5.instance("%s: unsigned (%s - %s)" % (f.name, a_, b_))
-            ok = False
-            need = None
+            conds = inv.dominating_conditions(cx, f, x)
+            lb = count_floor(conds)
             if re.fullmatch(r"\d+", b_):
-                need = int(b_)
-            for anc in inv.enclosing_chain(f, x):
-                if anc["kind"] == "IfStmt" and any(y is x for y in walk(kids(anc)[1])):
-                    c = cx.canon(kids(anc)[0])
-                    if need is not None:
-                        for mm in re.finditer(r"\(%s > (\d+)\)" % re.escape(a_), c):
-                            if int(mm.group(1)) >= need - 1 and "||" not in c:
-                                ok = True
-                    else:
-                        if re.search(r"\(%s >=? %s\)" % (re.escape(a_), re.escape(b_)), c) and "||" not in c:
-                            ok = True
+                ok = lb.get(a_, 0) >= int(b_)
+            else:
+                ok = any(cd in ("(%s >= %s)" % (a_, b_), "(%s > %s)" % (a_, b_), "!(%s < %s)" % (a_, b_), "!(%s <= %s)" % (a_, b_),
+                                "(%s <= %s)" % (b_, a_), "(%s < %s)" % (b_, a_), "!(%s > %s)" % (b_, a_), "!(%s >= %s)" % (b_, a_))
+                         for cd in conds)
             if ok:
                 r5.ok()
             else:
@@ -267,8 +321,22 @@ def rules(rep, m):
         sts = [(cx.canon(l), cx.canon(r) if r is not None else k) for l, r, k, n_ in inv.stores(f)]
         mx = [v for l, v in sts if l.endswith("->max")]
         mn = [v for l, v in sts if l.endswith("->min")]
-        okm = any(re.fullmatch(r"\(\(%s > (.+)\) \? %s : \1\)" % (xn, xn), v) for v in mx) and \
-            any(re.fullmatch(r"\(\(%s < (.+)\) \? %s : \1\)" % (xn, xn), v) for v in mn)
+        def upd(field, op):
+            rop = {">": "<", "<": ">"}[op]
+            for l, r, k, n_ in inv.stores(f):
+                lc = cx.canon(l)
+                if not lc.endswith("->" + field) or r is None:
+                    continue
+                v = cx.canon(r)
+                if re.fullmatch(r"\(\(%s %s (.+)\) \? %s : \1\)" % (xn, op, xn), v) or \
+                        re.fullmatch(r"\(\((.+) %s %s\) \? %s : \1\)" % (rop, xn, xn), v):
+                    return True
+                # the guarded form: if (x > max) max = x;
+                if v == xn and any(cd in ("(%s %s %s)" % (xn, op, lc), "(%s %s %s)" % (lc, rop, xn))
+                                   for cd in inv.dominating_conditions(cx, f, n_)):
+                    return True
+            return False
+        okm = upd("max", ">") and upd("min", "<")
         r4.instance("%s: min/max update %s" % (f.name, okm))
         if not okm:
             rep.finding(r4, f.name, "add:minmax", "add does not update min/max with the new sample (%s / %s)" % (mn, mx),
@@ -278,12 +346,14 @@ def rules(rep, m):
             r4.ok()
     # zero-weight samples are ignored before anything is updated
     wx = FuncCtx(m, ws_add)
-    first_store = min([inv.stmt_index_containing(ws_add, n_) or 99 for l, r, k, n_ in inv.stores(ws_add)
-                       if not render(l).replace("*", "").isidentifier()] or [99])
-    zi = [i for i, s_ in enumerate(kids(ws_add.body)) if s_["kind"] == "IfStmt" and
-          re.fullmatch(r"\(%s == 0(\.0)?\)" % ws_add.params[2]["name"], wx.canon(kids(s_)[0])) and
-          any(y["kind"] == "ReturnStmt" for y in walk(kids(s_)[1]))]
-    if not zi or zi[0] > first_store:
+    wn = ws_add.params[2]["name"]
+    nz = ("!(%s == 0)" % wn, "!(%s == 0.0)" % wn, "(%s != 0)" % wn, "(%s != 0.0)" % wn, "(%s > 0)" % wn, "(%s > 0.0)" % wn,
+          "!(%s <= 0)" % wn, "!(%s <= 0.0)" % wn)
+    unguarded = [render(l) for l, r, k, n_ in inv.stores(ws_add)
+                 if not render(l).replace("*", "").isidentifier() and
+                 not any(cd in nz for cd in inv.dominating_conditions(wx, ws_add, n_))]
+    r4.instance("%s: stores reached with a zero weight: %s" % (ws_add.name, unguarded))
+    if unguarded:
         rep.finding(r4, ws_add.name, "zero-weight", "zero-weight samples are not ignored before the summary is updated",
                     where=m.rel(ws_add.where))
         r4.fail()
